@@ -817,10 +817,10 @@ def run_function(mod_text, fn, cx, params, layout, max_paths=64, max_steps=40000
                         ptr = val(p, args[0].split()[-1])
                         byte = val(p, args[1].split()[-1], "i8")
                         n = val(p, args[2].split()[-1], "i64")
-                        if not (is_const(byte[2]) and is_const(n[2])):
-                            raise Undecided("memset with symbolic operands")
+                        if not is_const(n[2]):
+                            raise Undecided("memset with a symbolic length")
                         nb = cval(n[2])
-                        p.mem.store(cx, ptr[1], ptr[2], nb, const(sum(cval(byte[2]) << (8 * i) for i in range(nb))))
+                        p.mem.store(cx, ptr[1], ptr[2], nb, pscale(byte[2], sum(1 << (8 * i) for i in range(nb))))
                     elif name.startswith(("llvm.memcpy.", "llvm.memmove.")):
                         d_, s_ = val(p, args[0].split()[-1]), val(p, args[1].split()[-1])
                         n = val(p, args[2].split()[-1], "i64")
